@@ -123,6 +123,96 @@ def run_case(chk, kind, N, s3, s4, tag, do_compose):
     chk.note('%s: %.1f s, %d generic decisions' % (label, time.time() - t0, st['generic_nonzero_notes']))
 
 
+def high_degree_series(chk, N, s3, s4, tag):
+    """The coordinate series of a SPARSE symbolic generator (a few monomials in G3 and G4, nothing else) at a high truncation
+    degree: the number of nested brackets needed grows with N (N-1 for the cubic part), so series-length, factorial and
+    truncation errors that low degrees cannot show appear here.  Convention-free obligations: canonical and inverse o forward = id."""
+    import hiten.algorithms.polynomial.base as pb
+    import hiten.algorithms.hamiltonian.center._lie as cl
+    t0 = time.time()
+    psi, clmo = pb._init_index_tables(N)
+    enc = pb._create_encode_dict_from_clmo(clmo)
+    tables = (psi, clmo, enc)
+    ex = Explorer(generic_nonzero=True)
+    label = 'sparse generator/N=%d/support %s' % (N, tag)
+    with explore.activate(ex):
+        G, Gref = R.make_sym_poly(tables, {3: s3, 4: s4}, 'g%s_' % tag)
+        G += [pb._make_poly(d, psi) for d in range(len(G), N + 1)]
+        fwd = cl._lie_expansion(G, N, psi, clmo, 1e-30, inverse=False, sign=None, restrict=False)
+        inv = cl._lie_expansion(G, N, psi, clmo, 1e-30, inverse=True, sign=None, restrict=False)
+        Phi = [R.from_blocks(fwd[i], clmo) for i in range(6)]
+        Psi = [R.from_blocks(inv[i], clmo) for i in range(6)]
+        top = max((sum(k) for P in Phi for k, v in P.items() if not is_zero(v)), default=0)
+        okc, badc = True, None
+        for i in range(6):
+            for j in range(i + 1, 6):
+                br = R.by_degree(R.ppoisson(Phi[i], Phi[j], None), 0, N - 1)
+                want = Sym.const(1 if j == i + 3 else 0)
+                for k, v in br.items():
+                    tgt = want if sum(k) == 0 else Sym.const(0)
+                    if not is_zero(v - tgt):
+                        okc, badc = False, (i, j, k)
+                if sum(1 for k in br if sum(k) == 0) == 0 and j == i + 3:
+                    okc, badc = False, (i, j, 'constant term missing')
+        oid = 'C08/(3)canonical {Phi_i,Phi_j} = J_ij/%s' % label
+        if okc:
+            chk.ok(oid, 'all 15 brackets up to degree %d (series reach degree %d)' % (N - 1, top), sample={'N': N, 'top_degree': top})
+        else:
+            chk.fail(oid, 'bracket {Phi_%d, Phi_%d} is wrong at monomial %s' % badc, _replay_series(N), None)
+        okid, badi = True, None
+        for i in range(6):
+            c = R.pcompose(Psi[i], Phi, N)
+            e = [0] * 6
+            e[i] = 1
+            ok, key = R.same_poly(c, {tuple(e): Sym.const(1)})
+            if not ok:
+                okid, badi = False, (i, key)
+        oid = 'C08/(4)inverse o forward = id/%s' % label
+        if okid:
+            chk.ok(oid, 'all six coordinate series up to degree %d' % N)
+        else:
+            chk.fail(oid, 'component %d of inverse o forward differs from the identity at monomial %s' % badi, _replay_series(N), None)
+    st = chk.absorb(ex)
+    chk.note('%s: %.1f s' % (label, time.time() - t0))
+
+
+def _replay_series(N):
+    """Real build: coordinate series of a concrete sparse generator at degree N; canonicity and inverse o forward numerically."""
+    return '''
+from hiten.algorithms.polynomial.base import _init_index_tables, _create_encode_dict_from_clmo, _encode_multiindex, _make_poly
+from hiten.algorithms.polynomial.operations import _polynomial_poisson_bracket, _polynomial_evaluate
+from hiten.algorithms.hamiltonian.center._lie import _lie_expansion
+from numba.typed import List
+N = %d
+psi, clmo = _init_index_tables(N); enc = _create_encode_dict_from_clmo(clmo)
+G = [_make_poly(d, psi) for d in range(N + 1)]
+for k, c in (((2, 1, 0, 0, 0, 0), 0.3), ((1, 0, 0, 0, 1, 1), -0.2), ((0, 1, 0, 1, 1, 0), 0.25), ((2, 0, 0, 1, 0, 1), 0.15)):
+    G[sum(k)][_encode_multiindex(np.array(k, dtype=np.int64), sum(k), enc)] = c
+Gl = List()
+for a in G: Gl.append(a)
+fwd = _lie_expansion(Gl, N, psi, clmo, 1e-30, inverse=False, sign=None, restrict=False)
+inv = _lie_expansion(Gl, N, psi, clmo, 1e-30, inverse=True, sign=None, restrict=False)
+# canonicity: {Phi_i, Phi_j} = J_ij up to degree N-1
+worst_c = 0.0
+for i in range(6):
+    for j in range(i + 1, 6):
+        br = _polynomial_poisson_bracket(fwd[i], fwd[j], N, psi, clmo, enc)
+        for d in range(0, N):
+            blk = np.asarray(br[d]) if d < len(br) else np.zeros(1)
+            tgt = np.zeros_like(blk)
+            if d == 0 and j == i + 3: tgt[0] = 1.0
+            worst_c = max(worst_c, float(np.max(np.abs(blk - tgt))) if blk.size else 0.0)
+# inverse o forward at a small point: error must be O(|z|^(N+1))
+z = np.array([0.11, -0.07, 0.05, 0.09, 0.06, -0.08], dtype=np.complex128)
+def ev(series, pt): return np.array([_polynomial_evaluate(series[i], pt, clmo) for i in range(6)])
+err = []
+for scale in (1.0, 0.5):
+    w = ev(inv, ev(fwd, z * scale)); err.append(float(np.max(np.abs(w - z * scale))))
+order = np.log2(err[0] / err[1]) if err[1] > 0 else 99.0
+_verdict(worst_c > 1e-10 or order < N + 0.5, worst_bracket_error=worst_c, roundtrip_errors=err, observed_order=float(order), expected_order=N + 1)
+''' % N
+
+
 def _replay_elim(kind):
     return '''
 from hiten.system import System
@@ -176,7 +266,7 @@ def main():
     chk.assume('non-resonance to the needed order: every divisor (k, eta) that is not identically zero is non-zero (generic side of the |denom| < 1e-14 test)',
                'nu_k stands for i*omega_k: the obligations are rational-function identities in (lam, nu1, nu2, coefficients), valid for all complex values with non-zero divisors',
                'zero-skip guards and cleaning thresholds on the generic side')
-    chk.out_of_scope('degrees above the bound (7..10)', 'radius of convergence, behaviour near resonances')
+    chk.out_of_scope('dense Hamiltonians at degrees above the bound (only a sparse symbolic generator is taken to degree 8, 10 thorough)', 'radius of convergence, behaviour near resonances')
     run_case(chk, 'partial', 4, H3_SUPPORT, H4_SUPPORT, 'A', True)
     run_case(chk, 'partial', 5 if not thorough else 6, H3_SUPPORT, H4_SUPPORT, 'A', False)
     run_case(chk, 'full', 4, H3_SUPPORT, H4_SUPPORT, 'A', True)
@@ -185,6 +275,7 @@ def main():
     alt4 = r.sample(ALT4, 5) + r.sample(H4_SUPPORT, 2)
     run_case(chk, 'partial', 4, alt3, alt4, 'B(seed %d)' % chk.seed, False)
     run_case(chk, 'full', 5, H3_SUPPORT, H4_SUPPORT, 'A', False)
+    high_degree_series(chk, 8 if not thorough else 10, H3_SUPPORT[:3], H4_SUPPORT[:1], 'S')
     if thorough:
         run_case(chk, 'partial', 5, H3_SUPPORT, H4_SUPPORT, 'A', True)
         run_case(chk, 'full', 5, alt3, alt4, 'B', True)
